@@ -696,6 +696,11 @@ fn fragmentations(o: &mut Out, ty: &str, cap: &str, text: &str, faults: bool) {
         };
         let plain = enc(&frs, &mut o.rng, false);
         o.put(&format!("frag/{}", ty), format!("parse_fmt {} {} {} -", ty, cap, plain));
+        if !text.is_ascii() {
+            // every one-character fragment through write_char: a char above U+00FF must not be truncated to its low byte
+            let parts: Vec<String> = frs.iter().map(|f| if f.chars().count() == 1 { format!("c{}", tx(f)) } else { tx(f) }).collect();
+            o.put(&format!("frag-char/{}", ty), format!("parse_fmt {} {} {} -", ty, cap, parts.join(",")));
+        }
         if m % 3 == 0 {
             let e = enc(&frs, &mut o.rng, true);
             o.put(&format!("frag-empty/{}", ty), format!("parse_fmt {} {} {} -", ty, cap, e));
@@ -708,7 +713,8 @@ fn fragmentations(o: &mut Out, ty: &str, cap: &str, text: &str, faults: bool) {
     }
 }
 
-pub const FRAG_TEXTS: [&str; 44] = [
+pub const FRAG_TEXTS: [&str; 52] = [
+    "ı", "1ť5", "ŉnf", "ĭ1", "1Į5", "ŮaN", "1ī", "２",
     "0", "-1", "+12", "1.5", "-12.34e-5", "1e+5", "1E5", "00.10e01", "123456789012", "inf", "-Infinity", "nan", "-sNaN(12)", "nan()", "snan(0)",
     "x", "1x", "x2", "1x2", "1.-5", "1.+5", "1..2", "1e5e", "e5", "1e", "-", "+-1", "", "nan(1)2", "infx", "in", "sna", "nan(", "1.2.3", "12é", "é1", " 1", "1 ", "-.5", "5.", "+", "1e+", "nan(12", "9.99e+99",
 ];
